@@ -31,7 +31,7 @@ EMITTERS = {
     "br_if": ("wasmCWriteBranchIfExpr", [("copy", ["BR_CLASS=0"]), ("inplace", ["BR_CLASS=1"]), ("novalue", ["BR_CLASS=2"])]),
     "global_get": ("wasmCWriteGlobalGetExpr", GENERIC), "global_set": ("wasmCWriteGlobalSetExpr", GENERIC),
     "memory_size": ("wasmCWriteMemorySizeExpr", GENERIC), "memory_grow": ("wasmCWriteMemoryGrowExpr", GENERIC),
-    "dispatch": ("wasmCWriteFunctionCode", [("nop", ["DISP=0"]), ("drop", ["DISP=1"]), ("unreachable_then_dead", ["DISP=2"]), ("br_then_dead", ["DISP=3"]), ("dead_until_else", ["DISP=4"]), ("return", ["DISP=5"])]),
+    "dispatch": ("wasmCWriteFunctionCode", [("nop", ["DISP=0"]), ("drop", ["DISP=1"]), ("unreachable_then_dead", ["DISP=2"]), ("br_then_dead", ["DISP=3"]), ("dead_until_else", ["DISP=4"]), ("return", ["DISP=5"]), ("dead_memory_fill_padded", ["DISP=6", "HMAX=4"]), ("dead_memory_copy_padded", ["DISP=7", "HMAX=4"]), ("dead_memory_init_padded", ["DISP=8", "HMAX=4"]), ("dead_atomic_load_padded", ["DISP=9", "HMAX=4"])]),
     "function_return": ("wasmCWriteFunctionReturn", [("", ["HMAX=6"])]),
     "dead": ("wasmCWriteLoadExpr", [("global_get", ["DEAD_WHICH=0"]), ("global_set", ["DEAD_WHICH=1"]), ("load", ["DEAD_WHICH=2"]), ("store", ["DEAD_WHICH=3"]), ("call", ["DEAD_WHICH=4"]), ("call_indirect", ["DEAD_WHICH=5"]), ("br", ["DEAD_WHICH=6"]), ("br_if", ["DEAD_WHICH=7"]), ("br_table", ["DEAD_WHICH=8"]), ("memory_grow", ["DEAD_WHICH=9"])]),
     "ignored": ("wasmCWriteLocalGetExpr", [("local_get", ["IGN_WHICH=0"]), ("local_set", ["IGN_WHICH=1"]), ("local_tee", ["IGN_WHICH=2"]), ("const", ["IGN_WHICH=3"])]),
